@@ -146,7 +146,7 @@ theorem core_F8 (a b c d : Nat) (h1 : 0xF8 ≤ a)
   have cb : contBad (some b) = false := (contBad_some b).2 hb
   have cc : contBad (some c) = false := (contBad_some c).2 hc
   have cd : contBad (some d) = false := (contBad_some d).2 hd
-  simp only [decodeCore, n1, n2, n3, n4, n5, cb, cc, cd, if_true, if_false, RuneError, Bool.false_eq_true]
+  simp only [decodeCore, n1, n2, n3, n4, n5, cb, cc, cd, if_false, RuneError, Bool.false_eq_true]
 
 open GV.Spec.Utf8
 
